@@ -1,10 +1,12 @@
 package c16
 
 import (
+	"context"
 	"errors"
 	"fmt"
 	"net"
 	"sync"
+	"syscall"
 	"testing"
 	"time"
 
@@ -23,6 +25,55 @@ type Op struct {
 type Case struct {
 	Mode      string `json:"mode"`
 	Histories [][]Op `json:"histories"`
+	// DialBirth: every second connection is not added with AddConn but dialed by the engine with
+	// DialAsyncTimeout (2 s); once established it is a connection like any other and its deadlines close it
+	// with their own errors
+	DialBirth bool `json:"dial_birth,omitempty"`
+}
+
+// dialPair brings a connection to the engine through DialAsyncTimeout (small buffers on both ends, like the
+// socket pairs of the other connections); inside runs in the dial callback.
+func dialPair(g *nbio.Engine, inside func(*nbio.Conn)) (*nbio.Conn, net.Conn, error) {
+	lc := net.ListenConfig{Control: func(network, address string, rc syscall.RawConn) error {
+		return rc.Control(func(fd uintptr) { _ = syscall.SetsockoptInt(int(fd), syscall.SOL_SOCKET, syscall.SO_RCVBUF, 4096) })
+	}}
+	ln, err := lc.Listen(context.Background(), "tcp", "127.0.0.1:0")
+	if err != nil {
+		return nil, nil, err
+	}
+	defer ln.Close()
+	type dres struct {
+		c   *nbio.Conn
+		err error
+	}
+	ch := make(chan dres, 1)
+	if err := g.DialAsyncTimeout("tcp", ln.Addr().String(), 2*time.Second, func(dc *nbio.Conn, err error) {
+		if err == nil {
+			if rc, e := dc.SyscallConn(); e == nil {
+				_ = rc.Control(func(fd uintptr) { _ = syscall.SetsockoptInt(int(fd), syscall.SOL_SOCKET, syscall.SO_SNDBUF, 4096) })
+			}
+			inside(dc)
+		}
+		ch <- dres{dc, err}
+	}); err != nil {
+		return nil, nil, err
+	}
+	_ = ln.(*net.TCPListener).SetDeadline(time.Now().Add(5 * time.Second))
+	peer, err := ln.Accept()
+	if err != nil {
+		return nil, nil, err
+	}
+	select {
+	case r := <-ch:
+		if r.err != nil {
+			peer.Close()
+			return nil, nil, r.err
+		}
+		return r.c, peer, nil
+	case <-time.After(5 * time.Second):
+		peer.Close()
+		return nil, nil, fmt.Errorf("dial callback did not run within 5 s")
+	}
 }
 
 const amb = 5 * time.Millisecond
@@ -225,7 +276,23 @@ func runCase(c Case) vlib.Result {
 	}
 	defer vlib.StopEngine(g.Stop, 10*time.Second)
 	var hs []*hist
-	for _, ops := range c.Histories {
+	for hi, ops := range c.Histories {
+		if c.DialBirth && hi%2 == 1 {
+			h := &hist{ops: ops}
+			nbc, peer, err := dialPair(g, func(dc *nbio.Conn) {
+				h.nbc = dc
+				mu.Lock()
+				byConn[dc] = h
+				mu.Unlock()
+			})
+			if err != nil {
+				return vlib.Fail("harness: dial pair: %v", err)
+			}
+			defer peer.Close()
+			h.nbc, h.peer = nbc, peer
+			hs = append(hs, h)
+			continue
+		}
 		a, peer, err := vlib.StreamPair("tcp", 4096, 4096)
 		if err != nil {
 			return vlib.Fail("harness: pair: %v", err)
@@ -368,6 +435,7 @@ func gen(t *rapid.T) Case {
 		}
 		c.Histories = append(c.Histories, ops)
 	}
+	c.DialBirth = rapid.Bool().Draw(t, "dialbirth")
 	return c
 }
 
